@@ -301,6 +301,9 @@ func invocationCases(r *rand.Rand, n int) []Case {
 	}
 	for i := 0; i < n; i++ {
 		ct := genCRSTree(r, 1+r.Intn(3))
+		if i%5 == 4 {
+			addAmbiguousRulesCopy(ct)
+		}
 		ra := pick(r, ct.ra)
 		cfg := cfgOfTree(ct)
 		files := treeArgs(ct.t)
